@@ -234,6 +234,88 @@ func Fund(fail bool) error {
 	releaseInputs = false
 	return nil
 }
+
+// --- a strategy interface with an unexported method: closed world, two implementations
+type ledger interface {
+	credit(n int) error
+}
+type accounts struct{}
+type pools struct{}
+
+func (accounts) credit(n int) error {
+	if _, err := a(); err != nil {
+		return wrap(err)
+	}
+	return nil
+}
+func (pools) credit(n int) error {
+	if _, err := b(); err != nil {
+		return wrap(err)
+	}
+	return nil
+}
+
+func Replenish(l ledger, n int) error {
+	if err := l.credit(n); err != nil {
+		return err
+	}
+	put()
+	return nil
+}
+
+// --- a helper compared with nil in a condition
+var errClosed = errors.New("closed")
+
+func state(c bool) error {
+	if c {
+		return errClosed
+	}
+	return nil
+}
+
+func Stop(c bool) {
+	if state(c) == nil {
+		del()
+	}
+}
+
+// --- a loop over the list a helper builds
+func ids(x []int) (out []int) {
+	for _, e := range x {
+		out = append(out, e+1)
+	}
+	return
+}
+
+func Mark(x []int, seen map[int]bool) {
+	for _, id := range ids(x) {
+		seen[id] = true
+	}
+}
+
+// --- a table of steps in a helper that returns from inside the loop, writing through pointers into a local
+type pair struct{ first, second int }
+
+func fill(p *pair, x, y int) error {
+	for _, step := range [...]struct {
+		v    int
+		dest *int
+	}{{x, &p.first}, {y, &p.second}} {
+		if step.v < 0 {
+			return errors.New("negative")
+		}
+		*step.dest = step.v
+	}
+	return nil
+}
+
+func Fill(x, y int) int {
+	var p pair
+	if err := fill(&p, x, y); err != nil {
+		return -1
+	}
+	return p.first + p.second
+}
 `
 
 // leaf: the functions standing for external API (kept as calls in every view).
@@ -568,4 +650,55 @@ func TestFlagTestedTwiceIsCorrelated(t *testing.T) {
 		t.Errorf("p may be nil at the dereference according to the per-path analysis")
 	}
 	_ = g
+}
+
+func TestClosedInterfaceIsDevirtualised(t *testing.T) {
+	p := loadTest(t)
+	v := p.Expand(fn(t, p, "Replenish"), ExpandOpt{Key: "t", Stop: leaf})
+	// both implementations are in the view, and put() is reached only after one of a() / b() succeeded
+	ea, eb := successEdges(v, "a"), successEdges(v, "b")
+	if len(ea) == 0 || len(eb) == 0 {
+		t.Fatalf("the implementations were not expanded:\n%s", render(t, v.Body))
+	}
+	if !v.OnlyVia(callNode(t, v, "put"), append(ea, eb...)) {
+		t.Errorf("put() reachable without a successful credit of either implementation:\n%s", render(t, v.Body))
+	}
+}
+
+func TestHelperComparedWithNilIsExpanded(t *testing.T) {
+	p := loadTest(t)
+	v := p.Expand(fn(t, p, "Stop"), ExpandOpt{Key: "t", Stop: leaf})
+	g := v.Graph()
+	del := callNode(t, v, "del")
+	// del() only where the helper's own condition was false (it returned nil)
+	var falseEdges []*cfgx.Edge
+	for _, n := range g.Nodes {
+		if n.Block != nil && n.Block.Cond == n.AST && len(n.Succs) == 2 {
+			if id, ok := n.AST.(*ast.Ident); ok && id.Name == "c" {
+				falseEdges = append(falseEdges, n.Succs[1])
+			}
+		}
+	}
+	if len(falseEdges) == 0 || !v.OnlyVia(del, falseEdges) {
+		t.Errorf("del() not tied to the helper's nil return:\n%s", render(t, v.Body))
+	}
+}
+
+func TestRangeOverHelperResult(t *testing.T) {
+	p := loadTest(t)
+	v := p.Expand(fn(t, p, "Mark"), ExpandOpt{Key: "t", Stop: leaf})
+	if len(v.Inlined) == 0 {
+		t.Errorf("the list-building helper in the range clause was not expanded:\n%s", render(t, v.Body))
+	}
+}
+
+func TestTableInHelperWritesThroughToLocal(t *testing.T) {
+	p := loadTest(t)
+	v := p.Expand(fn(t, p, "Fill"), ExpandOpt{Key: "t", Stop: leaf})
+	out := render(t, v.Body)
+	// the table is unrolled although the helper returns from inside the loop, and the stores through the row's
+	// pointer are stores into the local's fields
+	if strings.Contains(out, "range") || strings.Contains(out, "dest") {
+		t.Errorf("table not unrolled / pointer rows not resolved:\n%s", out)
+	}
 }
